@@ -284,6 +284,33 @@ func (p *OAuthProxy) IsWhitelistedRequest(req *http.Request) bool {
 	return false
 }
 
+// consumeConnectionNominations removes the headers named in the Connection header together
+// with their nomination. The connection options the reverse proxy acts on itself (close,
+// keep-alive, upgrade) are kept.
+func consumeConnectionNominations(h http.Header) {
+	lines, ok := h["Connection"]
+	if !ok {
+		return
+	}
+	var kept []string
+	for _, line := range lines {
+		for _, token := range strings.Split(line, ",") {
+			token = strings.TrimSpace(token)
+			switch strings.ToLower(token) {
+			case "":
+			case "close", "keep-alive", "upgrade":
+				kept = append(kept, token)
+			default:
+				h.Del(token)
+			}
+		}
+	}
+	h.Del("Connection")
+	if len(kept) > 0 {
+		h.Set("Connection", strings.Join(kept, ", "))
+	}
+}
+
 func (p *OAuthProxy) isXHR(req *http.Request) bool {
 	return req.Header.Get("X-Requested-With") == "XMLHttpRequest"
 }
@@ -545,6 +572,12 @@ func (p *OAuthProxy) Proxy(rw http.ResponseWriter, req *http.Request) {
 	start := time.Now()
 	tags := []string{"action:proxy"}
 	var err error
+
+	// Headers that the client nominates as hop-by-hop in its Connection header are consumed
+	// here, as an intermediary has to (RFC 7230, section 6.1). Left in place, the nomination
+	// would make the reverse proxy drop headers of the same name that the proxy itself sets
+	// below - the identity headers, injected headers, the request signature.
+	consumeConnectionNominations(req.Header)
 
 	// The identity headers are asserted by the proxy only. Drop whatever the client sent
 	// so that a request that skips authentication (or a session without an access token)
